@@ -53,9 +53,10 @@ def find_and_delete(script, sig):
     return _reserialize(script, drop_codesep=False, delete=push_data(sig))
 
 
-def legacy_sighash(tx, idx, script_code, hashtype):
+def legacy_sighash(tx, idx, script_code, hashtype, _append=None):
     """tx: ref.wire.Tx. script_code: the subscript (already after last executed CODESEPARATOR).
-    Returns the 32-byte digest."""
+    Returns the 32-byte digest. (_append: hash type value written at the end instead of `hashtype` - only used to
+    describe a non-consensus digest exactly, never by an oracle.)"""
     if idx >= len(tx.vin):
         return (1).to_bytes(32, 'little')
     script_code = _reserialize(script_code, drop_codesep=True)
@@ -86,7 +87,7 @@ def legacy_sighash(tx, idx, script_code, hashtype):
         for o in tx.vout:
             out += o.serialize()
     out += struct.pack('<I', tx.locktime)
-    out += struct.pack('<I', hashtype & 0xffffffff)
+    out += struct.pack('<I', (hashtype if _append is None else _append) & 0xffffffff)
     return dsha256(out)
 
 
